@@ -341,6 +341,42 @@ class C10(Check):
             if order != sorted(order):
                 v.append(("select/not-best-first", f"{got}"))
             v += self.chain(gene0, sols)
+        # output-kind dispatch: each kind of result file states the same list of solutions
+        if got != "ERR" and mms == 3:
+            for kind in ("aldy", "vcf", "simple"):
+                opath = os.path.join(d, f"SAMPLE_{os.getpid()}.{kind}")
+                with open(opath, "w") as fh:
+                    try:
+                        res2 = G.genotype(ypath, spath, ppath, output_file=fh, cn_region=w.neutral(build), genome=build, gap=gap, max_minor_solutions=mms)
+                    except AldyException as ex:
+                        v.append(("output/run-failed", f"{kind}: {ex}"))
+                        continue
+                text = open(opath).read()
+                sols2 = list(res2.values())[0]
+                n = len(sols2)
+                if kind == "aldy":
+                    heads = [l for l in text.splitlines() if l.startswith("#Solution ")]
+                    ids = {l.split("\t")[2] for l in text.splitlines() if l and not l.startswith("#")}
+                    if len(heads) != n or ids != {str(i + 1) for i in range(n)}:
+                        v.append(("output/aldy-solutions", f"{case}: {n} solutions, file has {len(heads)} headers and ids {sorted(ids)}"))
+                    for i, sol in enumerate(sols2):
+                        want = ";".join(a.minor for a in sol.solution)
+                        rows = [l.split("\t") for l in text.splitlines() if l and not l.startswith("#") and l.split("\t")[2] == str(i + 1)]
+                        if any(r[4] != want or r[3] != sol.get_major_diplotype().replace(" ", "") for r in rows):
+                            v.append(("output/aldy-solution-fields", f"{case}: solution {i + 1}"))
+                elif kind == "vcf":
+                    hdr = [l for l in text.splitlines() if l.startswith("#CHROM")]
+                    if len(hdr) != 1 or len(hdr[0].split("\t")) != 9 + n:
+                        v.append(("output/vcf-columns", f"{case}: {n} solutions, header {hdr[:1]}"))
+                else:
+                    lines = text.splitlines()
+                    f_ = lines[0].rstrip("\t").split("\t") if lines else []
+                    if len(lines) != 1 or len(f_) != 2 + 2 * n or f_[1] != "GEN":
+                        v.append(("output/simple-line", f"{case}: {n} solutions, line {text!r}"))
+                    else:
+                        for i, sol in enumerate(sols2):
+                            if f_[2 + 2 * i] != sol.get_major_diplotype().replace(" ", ""):
+                                v.append(("output/simple-fields", f"{case}: {f_}"))
         ncand = sum(len(minors) for _, _, ml in script for _, _, minors in ml)
         return Outcome(v, key=("real", "ERR" if got == "ERR" else len(got), ncand, len(script)), nontrivial=ncand >= 2 or got == "ERR",
                        counters={"real_samples": 1, "competing": int(ncand >= 2)},
